@@ -384,3 +384,78 @@ def ob_parse_entry(r, tier, seed):
 
 def obligations_parse_entry(prefix):
     return [Ob(prefix + '-parse-entry', 'parser::parse passes its input to the lexer unchanged; the tree covers it', ob_parse_entry, ('quick', 'thorough'), 1, {})]
+
+# ----------------------------------------------------------------------------- O12.6 the lexer's iterator wrapper passes every logos token through unchanged
+def ob_lexer_wrapper(r, tier, seed):
+    W = e2.fresh_world(('lexer', 'parser'))
+    TK = W.tt.find_adt(['lexer', 'TokenKind'], 'parser') if W.tt.by_name.get('TokenKind') else None
+    TK = [a for a in W.tt.by_name['TokenKind']][0]; LX = [a for a in W.tt.by_name['Lexer'] if a.crate == 'lexer'][0]
+    texts = ['ab', '// c', '// c\r', ' \r\n', 'a\r', '"s"', '\\\\x\n\\\\y\r', 'é']
+    r.bounds = 'one step of <lexer::Lexer as Iterator>::next: the logos lexer (environment) yields Ok(kind) for every TokenKind (solver variable) or Err, with the slice texts %s at an arbitrary span start' % [repr(t) for t in texts]
+    r.assumptions = ['the logos-generated automaton is the environment: its next / slice / span are stubs', 'oracle: the token handed on has exactly the slice as text, exactly the span as range, the same kind (Error for Err) - so token texts tile the input whenever the logos spans do']
+    cur = {}
+    def ov(f, g):
+        if 'logos' in g and g.endswith('::next') or g.endswith('Lexer<\'_, TokenKind> as Iterator>::next') or ('logos::Lexer' in g and 'Iterator>::next' in g):
+            def m_logos_next(ex, f_, a):
+                if cur['res'] == 'none': return ms.NONE()
+                if cur['res'] == 'err': return ms.some(ms.err(Agg('tuple', 0, [])))
+                return ms.some(ms.ok(cur['kindv']))
+            return m_logos_next
+        if 'logos' in g and g.endswith('::slice'):
+            def m_logos_slice(ex, f_, a): return mkstr(cur['text'])
+            return m_logos_slice
+        if 'logos' in g and g.endswith('::span'):
+            def m_logos_span(ex, f_, a): return Agg('Range', 0, [cur['start'], cur['start'] + len(cur['text'].encode())])
+            return m_logos_span
+        return None
+    W.overrides = [ov]
+    kind = z3.Int('kind'); kinds = list(range(len(TK.variants)))
+    def entry(ex):
+        cur['res'] = ex.choose([(True, 'ok'), (True, 'err'), (True, 'none')])
+        cur['text'] = ex.choose([(True, t) for t in texts]); cur['start'] = ex.choose([(True, 0), (True, 7)])
+        ex.restrict(kind, kinds)
+        from mirsym.engine import LazyEnum
+        cur['kindv'] = LazyEnum(TK, kind, 0, None, 'kind')
+        h = {0: Agg(LX.key, 0, [Opaque('logos')])}
+        out = ex.call('<Lexer as Iterator>::next', [Ref(h, 0)], 'lexer')
+        if out.idx == 0: return cur['res'], cur['text'], cur['start'], None
+        t = out.fields[0]; tf = dict(zip(['kind', 'text', 'range'], t.fields))
+        k = tf['kind']; kd = k.d if isinstance(k, LazyEnum) else k.idx
+        rg = tf['range']; 
+        return cur['res'], cur['text'], cur['start'], (kd, ms.pystr(ex.deref(tf['text'])), (rg.fields[0], rg.fields[1]))
+    res = e2.explore(r, W, entry, [])
+    for p in res:
+        r.cases += 1
+        if p.kind != 'ok':
+            if not r.findings: r.findings.append(Finding('panic', 'Lexer::next panics: %s' % p.value, {}, False, 'not replayed'))
+            continue
+        rs, text, start, out = p.value
+        r.nontrivial += 1
+        bad = None
+        if rs == 'none': bad = None if out is None else 'a token is produced after the end'
+        elif out is None: bad = 'no token although logos produced one'
+        else:
+            kd, t, rg = out
+            if t != text: bad = 'token text %r differs from the slice %r' % (t, text)
+            elif rg != (start, start + len(text.encode())): bad = 'token range %s differs from the span %s' % (rg, (start, start + len(text.encode())))
+            elif rs == 'err' and not (isinstance(kd, int) and TK.variants[kd].name == 'Error'): bad = 'an Err of logos does not become an Error token'
+            elif rs == 'ok' and not (kd is kind or (not isinstance(kd, int))): bad = 'the token kind is changed'
+        if bad and not r.findings:
+            m, _ = e2.check(p.pc); kn = TK.variants[e2.mval(m, kind)].name if m is not None else '?'
+            ok_ = False; detail = 'not replayed'
+            try:
+                # the path condition fixes kind and slice only loosely: replay on sources that make the real lexer produce such tokens
+                cands = ['// c\r\nfn f() -> unit { () }\n', 'fn f() -> unit { () } // c\r\n', 'a\r\nb', '"s"\r\n', text]
+                rc, o, e_ = build.run_driver('vreplay', '\n'.join(json.dumps({'fn': 'lex', 'args': [c_]}) for c_ in cands) + '\n')
+                for c_, l_ in zip(cands, o.splitlines()):
+                    toks = json.loads(l_)['ok']; joined = ''.join(t_[1] for t_ in toks)
+                    spans_ok = all(t_[3] - t_[2] == len(t_[1].encode()) for t_ in toks)
+                    if joined != c_ or not spans_ok:
+                        ok_ = True; detail = 'native lexer::lex on %r: token texts concatenate to %r (texts match their ranges: %s)' % (c_, joined, spans_ok); break
+                else: detail = 'native lexer::lex reproduces none of %r' % cands
+            except Exception as e_: detail = 'native replay failed: %s' % str(e_)[:100]
+            r.findings.append(Finding('lexer-wrapper-alters-token', '%s (logos result %s, kind %s)' % (bad, rs, kn), {'text': text, 'kind': kn}, ok_, detail))
+    r.samples = []
+
+def obligations_lexer_wrapper(prefix):
+    return [Ob(prefix + '-lexer-wrapper', 'the lexer wrapper hands every logos token on unchanged (text = slice, range = span)', ob_lexer_wrapper, ('quick', 'thorough'), 2, {})]
